@@ -22,10 +22,10 @@ InList(x, lst) == \E y \in 1..Len(lst) : PyEq(x, lst[y])
 TypeOf(v) == v.t[1]
 ToleranceCode == {{"int", "float"}, {"int", "Decimal"}}          \* ({int, float}, {int, Decimal}, (float, Decimal)): the tuple never matches a set
 Strict(v, c) ==
-  CASE c.c = "gt" -> IF NumLE(v, c) THEN FailV(v) ELSE OkV(v)                 \* if value <= gt: raise
-    [] c.c = "ge" -> IF NumLT(v, c) THEN FailV(v) ELSE OkV(v)
-    [] c.c = "lt" -> IF NumLE(c, v) THEN FailV(v) ELSE OkV(v)                 \* if value >= lt: raise
-    [] c.c = "le" -> IF NumLT(c, v) THEN FailV(v) ELSE OkV(v)
+  CASE c.c = "gt" -> IF IsNaN(v) \/ NumLE(v, c) THEN FailV(v) ELSE OkV(v)      \* if not value > gt: raise  (commit 01b9c33; before: if value <= gt)
+    [] c.c = "ge" -> IF IsNaN(v) \/ NumLT(v, c) THEN FailV(v) ELSE OkV(v)
+    [] c.c = "lt" -> IF IsNaN(v) \/ NumLE(c, v) THEN FailV(v) ELSE OkV(v)      \* if not value < lt: raise
+    [] c.c = "le" -> IF IsNaN(v) \/ NumLT(c, v) THEN FailV(v) ELSE OkV(v)
     [] c.c = "length"     -> IF LenCode(v) # c.n THEN FailV(v) ELSE OkV(v)
     [] c.c = "max_length" -> IF LenCode(v) > c.n THEN FailV(v) ELSE OkV(v)
     [] c.c = "min_length" -> IF LenCode(v) < c.n THEN FailV(v) ELSE OkV(v)
